@@ -16,6 +16,8 @@ import (
 type Case struct {
 	play.History
 	Pipelined bool `json:"pipelined,omitempty"`
+	// NameFamily: which family of easily-confused names the statement / portal names come from
+	NameFamily string `json:"name_family,omitempty"`
 }
 
 // classify walks the history with the model and labels it.
@@ -124,6 +126,9 @@ func classify(c Case) (labels []string, nontrivial bool) {
 func Run(c Case) core.Result {
 	res := core.Result{}
 	res.Labels, res.NonTrivial = classify(c)
+	if c.NameFamily != "" {
+		res.Labels = append(res.Labels, "names="+c.NameFamily)
+	}
 	if !c.Pipelined {
 		o := play.Run(c.History, play.Options{Prefix: "C06"})
 		res.Inconclusive = o.Inconclusive
